@@ -305,6 +305,28 @@ C08_Apply(tr, gs, gb, Ms, Mb, xs) ==
 \* a field computed on the big grid is the image of the one computed on the small grid
 C08_Field(tr, gs, gb, fs, fb) == \A cb \in Live(gb) : fb[cb] = fs[Pre(tr, gs, cb)]
 
+-----------------------------------------------------------------------------
+(* Extended coverage (behaviour behind the listed properties, not itself a listed property):
+   location variables, the boundary-corrected gradient, FaceVariable constructor forms, the
+   boundary utility methods and the domain integral.                                        *)
+\* cellLocations(m): one cell field per axis holding the centre coordinate of that axis
+CellLocation(g, a) == [c \in AllCells(g) |-> IF c \in Interior(g) THEN Centre(g, a, c[a]) ELSE RZero]
+\* faceLocations(m): coordinate b of the face id (the face position along its own axis, the cell
+\* centre along the others)
+FaceLocation(g, b) == [id \in FaceIds(g) |->
+                         IF id[1] = b THEN Face(g, b, id[2][b]) ELSE Centre(g, b, id[2][b])]
+\* gradientTermFixedBC: the gradient with the two boundary-face values of every axis doubled
+GradFixedBC(g, phi) == [id \in FaceIds(g) |->
+                          IF IsBoundaryFace(g, id[1], id[2]) THEN RMul(R(2), Grad(g, phi)[id]) ELSE Grad(g, phi)[id]]
+\* the utility methods of a boundary face: resulting (a, b, c)
+Utility(method, x, y, z, rev) ==
+  CASE method = "defaultNoFlux" -> <<ROne, RZero, RZero>>
+    [] method = "fixedValue"    -> <<RZero, ROne, x>>
+    [] method = "fixedGradient" -> <<y, RZero, RMul(y, x)>>            \* x gradient value, y scale
+    [] method = "newtonCooling" -> LET h == IF rev THEN RNeg(y) ELSE y   \* x = k, y = h, z = T_ext
+                                   IN  <<x, h, RMul(h, z)>>
+DomainIntegral(g, V, phi) == WeightedSum(g, V, phi)
+
 \* the reference mesh record (what the documentation promises)
 RefMesh(g) ==
   [dims        |-> Dims(g),
